@@ -19,14 +19,14 @@ func (cs *ChainService) VerifAddBlock(b *types.Block, bs *state.BlockState, peer
 	return cs.addBlock(b, bs, peer)
 }
 func (cs *ChainService) VerifGetTx(h []byte) (*types.Tx, *types.TxIdx, error) { return cs.getTx(h) }
-func (cs *ChainService) VerifGetReceipt(h []byte) (*types.Receipt, error)        { return cs.getReceipt(h) }
+func (cs *ChainService) VerifGetReceipt(h []byte) (*types.Receipt, error)     { return cs.getReceipt(h) }
 func (cs *ChainService) VerifGetReceipts(blockHash []byte) (*types.Receipts, error) {
 	return cs.getReceipts(blockHash)
 }
-func (cs *ChainService) VerifChainStore() db.DB         { return cs.cdb.store }
-func (cs *ChainService) VerifCfg() *config.Config      { return cs.cfg }
+func (cs *ChainService) VerifChainStore() db.DB                { return cs.cdb.store }
+func (cs *ChainService) VerifCfg() *config.Config              { return cs.cfg }
 func (cs *ChainService) VerifHardfork() *config.HardforkConfig { return cs.cfg.Hardfork }
-func (cs *ChainService) VerifLatestNo() types.BlockNo  { return cs.cdb.getBestBlockNo() }
+func (cs *ChainService) VerifLatestNo() types.BlockNo          { return cs.cdb.getBestBlockNo() }
 func (cs *ChainService) VerifPersistedLatest() (types.BlockNo, bool) {
 	b := cs.cdb.store.Get(dbkey.LatestBlock())
 	if len(b) == 0 {
@@ -38,9 +38,9 @@ func (cs *ChainService) VerifHasReorgMarker() bool {
 	m, err := cs.cdb.getReorgMarker()
 	return err != nil || m != nil
 }
-func (cs *ChainService) VerifPurgeErrBlocks() { cs.errBlocks.Purge() }
-func (cs *ChainService) VerifIsOrphan(b *types.Block) bool { return cs.isOrphan(b) }
-func (cs *ChainService) VerifOrphanCount() int           { return len(cs.op.cache) }
+func (cs *ChainService) VerifPurgeErrBlocks()                  { cs.errBlocks.Purge() }
+func (cs *ChainService) VerifIsOrphan(b *types.Block) bool     { return cs.isOrphan(b) }
+func (cs *ChainService) VerifOrphanCount() int                 { return len(cs.op.cache) }
 func (cs *ChainService) VerifVerifyBlock(b *types.Block) error { return cs.verifyBlock(b) }
 
 // VerifSetStores replaces the key-value stores of the chain DB and the state DB (journaling
